@@ -114,6 +114,15 @@ theorem C18_destinations (k : Nat) :
 
 /-! ## truncated files and failing sources -/
 
+/- `tableSpans w` (defined in Proofs/FaultsRead) lists (offset, length) of every table of the
+written file: the first body starts after the header, each next one where the previous body,
+padded to a multiple of 4, ends.  `Limited f k ra` says the source `ra` delivers only bytes of
+`f` and nothing beyond its first `k` bytes. -/
+example (w : Written) : tableSpans w = spans w.header.length (w.bodies.map (·.2.length)) := rfl
+example (o l : Nat) (r : List Nat) : spans o (l :: r) = (o, l) :: spans (o + 4 * ((l + 3) / 4)) r := rfl
+example (f : Bytes) (k : Nat) (ra : ReaderAt) : Limited f k ra =
+    ∀ off n b, ra off n = .ok b → off + n ≤ k ∧ off + n ≤ f.length ∧ b = (f.drop off).take n := rfl
+
 /-- A written file cut at `k` bytes, where `k` lies before the end of some table (`sp` is the
 offset and length of a table as laid out by the writer): `header.Read` on the `k`-byte file
 fails, hence `sfnt.Read` returns an error whatever the table decoders would do — from a
